@@ -1150,7 +1150,43 @@ var ruleDocD9 = &Rule{
 			return []Ob{{Key: "DOC/D9:TextDocumentDidChange", Site: c.Pos(bad[0].Pos()), Verdict: VIOLATION,
 				Note: "after a successful ApplyContentChanges some path returns without SetFileContent: the edit is dropped and the server keeps the previous text"}}
 		}
-		return []Ob{{Key: "DOC/D9:TextDocumentDidChange", Site: c.Pos(f.Pos()), Verdict: OK, Note: fmt.Sprintf("%d edit application(s): every non-error path stores the result", nApply)}}
+		obs := []Ob{{Key: "DOC/D9:TextDocumentDidChange", Site: c.Pos(f.Pos()), Verdict: OK, Note: fmt.Sprintf("%d edit application(s): every non-error path stores the result", nApply)}}
+		// and the edit is applied at all: from the entry, a return before ApplyContentChanges is reached only through the
+		// branch on which the document is not handled (a bool method of the project answered false) or is not open
+		// (the found result of GetFileContent is false) — never on a condition over the notification's own content
+		getF := c.SSAFunc(lspcommonPkg, "FileMapCache", "GetFileContent")
+		first := f.Blocks[0].Instrs[0]
+		notOurs := func(from, to *ssa.BasicBlock) bool {
+			iff, ok := from.Instrs[len(from.Instrs)-1].(*ssa.If)
+			if !ok {
+				return false
+			}
+			e := stripNot(condEdge{iff.Cond, from.Succs[0] == to})
+			if e.truth {
+				return false
+			}
+			switch x := e.cond.(type) {
+			case *ssa.Call:
+				g := x.Call.StaticCallee()
+				if g == nil || g.Signature.Recv() == nil || len(x.Call.Args) != 2 {
+					return false
+				}
+				_, nm := namedPkgName(g.Signature.Recv().Type())
+				return nm == "AllProject" // IsNeedHandle(file): a question about the file, not about the change
+			case *ssa.Extract:
+				call, ok := x.Tuple.(*ssa.Call)
+				return ok && getF != nil && call.Call.StaticCallee() == getF && x.Index == 1
+			}
+			return false
+		}
+		bad2 := mustFollowE(f, func(i ssa.Instruction) bool { return i == first }, isCallTo(applyF), notOurs)
+		if len(bad2) > 0 {
+			obs = append(obs, Ob{Key: "DOC/D9:TextDocumentDidChange:applied", Site: c.Pos(f.Pos()), Verdict: VIOLATION,
+				Note: "some path returns before the edit is applied although the document is handled and open: a change notification is dropped on a condition over its own content (an optional field, an empty text), and the server keeps the previous text"})
+		} else {
+			obs = append(obs, Ob{Key: "DOC/D9:TextDocumentDidChange:applied", Site: c.Pos(f.Pos()), Verdict: OK, Note: "an edit is skipped only for a document that is not handled or not open"})
+		}
+		return obs
 	},
 }
 
@@ -1768,16 +1804,87 @@ var ruleKeyM7 = &Rule{
 		if n == 0 {
 			return []Ob{{Key: "KEY/M7:ReanalyseReferInfo", Site: c.Pos(f.Pos()), Verdict: UNDECIDED, Note: "no store into CheckErrVec found: the rebuild of the reference diagnostics is not recognisable"}}
 		}
-		noUnresolved := func(from, to *ssa.BasicBlock) bool {
-			iff, ok := from.Instrs[len(from.Instrs)-1].(*ssa.If)
-			if !ok {
-				return false
+		// Paths from the entry to a return that do not pass the rebuild, followed over (block, predecessor) pairs so that a
+		// condition kept in a named local (`need := has() || contains(); if !need { return }`) is read like the inline form:
+		// a phi tested by the branch takes the value of the edge it was entered through. The edge on which
+		// isHasErrorNoFile() is false is the only pardon.
+		_ = first
+		hasRebuild := func(b *ssa.BasicBlock) bool {
+			for _, ins := range b.Instrs {
+				if isRebuild(ins) {
+					return true
+				}
 			}
-			e := stripNot(condEdge{iff.Cond, from.Succs[0] == to})
-			call, ok := e.cond.(*ssa.Call)
-			return ok && call.Call.StaticCallee() == has && !e.truth
+			return false
 		}
-		bad := mustFollowE(f, func(i ssa.Instruction) bool { return i == first }, isRebuild, noUnresolved)
+		// value of cond when known: (truth known, truth, is the negated/plain result of has())
+		type cv struct {
+			known, val bool
+			isHas      bool // the value IS has() (val = polarity: true means equals has())
+		}
+		var evalCond func(v ssa.Value, cur, prev *ssa.BasicBlock, d int) cv
+		evalCond = func(v ssa.Value, cur, prev *ssa.BasicBlock, d int) cv {
+			if d > 4 {
+				return cv{}
+			}
+			switch x := v.(type) {
+			case *ssa.Const:
+				if x.Value != nil && x.Value.Kind() == constant.Bool {
+					return cv{known: true, val: constant.BoolVal(x.Value)}
+				}
+			case *ssa.Call:
+				if x.Call.StaticCallee() == has {
+					return cv{isHas: true, val: true}
+				}
+			case *ssa.UnOp:
+				if x.Op == token.NOT {
+					r := evalCond(x.X, cur, prev, d+1)
+					r.val = !r.val
+					return r
+				}
+			case *ssa.Phi:
+				if x.Block() == cur && prev != nil {
+					for i, p := range cur.Preds {
+						if p == prev {
+							return evalCond(x.Edges[i], nil, nil, d+1)
+						}
+					}
+				}
+			}
+			return cv{}
+		}
+		type st struct{ b, prev *ssa.BasicBlock }
+		seen := map[st]bool{}
+		var bad []*ssa.BasicBlock
+		var dfs func(cur, prev *ssa.BasicBlock)
+		dfs = func(cur, prev *ssa.BasicBlock) {
+			k := st{cur, prev}
+			if seen[k] || hasRebuild(cur) {
+				return
+			}
+			seen[k] = true
+			switch t := cur.Instrs[len(cur.Instrs)-1].(type) {
+			case *ssa.Return:
+				bad = append(bad, cur)
+			case *ssa.If:
+				r := evalCond(t.Cond, cur, prev, 0)
+				for i, s := range cur.Succs {
+					edgeTruth := i == 0
+					if r.known && r.val != edgeTruth {
+						continue // infeasible
+					}
+					if r.isHas && (r.val == edgeTruth) == false {
+						continue // has() is false on this edge: pardoned
+					}
+					dfs(s, cur)
+				}
+			default:
+				for _, s := range cur.Succs {
+					dfs(s, cur)
+				}
+			}
+		}
+		dfs(f.Blocks[0], nil)
 		if len(bad) > 0 {
 			return []Ob{{Key: "KEY/M7:ReanalyseReferInfo", Site: c.Pos(f.Pos()), Verdict: VIOLATION,
 				Note: "some path returns without rebuilding the reference diagnostics although isHasErrorNoFile() was not found false on it: a file whose require could not be resolved keeps its stale `not find file` diagnostic after the module is created"}}
@@ -1936,29 +2043,38 @@ var ruleLocCRAtEnd = &Rule{
 			}
 			found := false
 			for _, g := range fns {
-				byteTest := func(b *ssa.BasicBlock, ch int64) bool {
+				// byteTest: the block ends in a comparison of a byte with ch; it returns the compared value and the index of
+				// the successor taken when the byte equals ch (`c == ch` and `c != ch` forms)
+				byteTest := func(b *ssa.BasicBlock, ch int64) (ssa.Value, int, bool) {
 					iff, ok := b.Instrs[len(b.Instrs)-1].(*ssa.If)
 					if !ok {
-						return false
+						return nil, 0, false
 					}
 					bo, ok := iff.Cond.(*ssa.BinOp)
-					if !ok || bo.Op != token.EQL {
-						return false
+					if !ok || (bo.Op != token.EQL && bo.Op != token.NEQ) {
+						return nil, 0, false
 					}
-					for _, side := range []ssa.Value{bo.X, bo.Y} {
-						if k, ok := side.(*ssa.Const); ok && k.Value != nil && k.Value.Kind() == constant.Int && k.Int64() == ch {
-							return true
-						}
+					eqEdge := 0
+					if bo.Op == token.NEQ {
+						eqEdge = 1
 					}
-					return false
+					if k, ok := bo.Y.(*ssa.Const); ok && k.Value != nil && k.Value.Kind() == constant.Int && k.Int64() == ch {
+						return bo.X, eqEdge, true
+					}
+					if k, ok := bo.X.(*ssa.Const); ok && k.Value != nil && k.Value.Kind() == constant.Int && k.Int64() == ch {
+						return bo.Y, eqEdge, true
+					}
+					return nil, 0, false
 				}
 				var bn, br *ssa.BasicBlock
+				var vn, vr ssa.Value
+				var en, er int
 				for _, b := range g.Blocks {
-					if byteTest(b, '\n') && bn == nil {
-						bn = b
+					if v, e, ok := byteTest(b, '\n'); ok && bn == nil {
+						bn, vn, en = b, v, e
 					}
-					if byteTest(b, '\r') && br == nil {
-						br = b
+					if v, e, ok := byteTest(b, '\r'); ok && br == nil {
+						br, vr, er = b, v, e
 					}
 				}
 				if bn == nil || br == nil {
@@ -1971,7 +2087,7 @@ var ruleLocCRAtEnd = &Rule{
 				// but phis, negations and decided branches) or to a return; boolean phis and negations are evaluated along the
 				// way, so the same walk reads `return c == '\n' || (c == '\r' && !(i+1 < n && s[i+1] == '\n'))` in a helper.
 				// A comparison with len(...) is decided as "the next index is not inside the text".
-				walk := func(from, start *ssa.BasicBlock) (*ssa.BasicBlock, *bool) {
+				walk := func(from, start *ssa.BasicBlock, kv ssa.Value, kch int64) (*ssa.BasicBlock, *bool) {
 					env := map[ssa.Value]bool{}
 					val := func(v ssa.Value) (bool, bool) {
 						if k, ok := v.(*ssa.Const); ok && k.Value != nil && k.Value.Kind() == constant.Bool {
@@ -1981,16 +2097,23 @@ var ruleLocCRAtEnd = &Rule{
 						return x, ok
 					}
 					prev, cur := from, start
-					for step := 0; step < 12; step++ {
+					for step := 0; step < 24; step++ {
 						pi := -1
 						for i, p := range cur.Preds {
 							if p == prev {
 								pi = i
 							}
 						}
-						passive := true
+						passive, effect := true, false
 						for _, ins := range cur.Instrs[:len(cur.Instrs)-1] {
 							switch x := ins.(type) {
+							case *ssa.Store, *ssa.MapUpdate, *ssa.Send, *ssa.Go, *ssa.Defer, *ssa.Panic, *ssa.RunDefers:
+								passive, effect = false, true
+							case *ssa.Call:
+								if _, isB := x.Call.Value.(*ssa.Builtin); !isB {
+									effect = true
+								}
+								passive = false
 							case *ssa.Phi:
 								if pi >= 0 {
 									if bv, ok := val(x.Edges[pi]); ok {
@@ -2024,10 +2147,10 @@ var ruleLocCRAtEnd = &Rule{
 							}
 							prev, cur = cur, cur.Succs[0]
 						case *ssa.If:
+							if effect {
+								return cur, nil
+							}
 							if bv, ok := val(t.Cond); ok {
-								if !passive {
-									return cur, nil
-								}
 								next := cur.Succs[1]
 								if bv {
 									next = cur.Succs[0]
@@ -2038,6 +2161,24 @@ var ruleLocCRAtEnd = &Rule{
 							bo, ok := t.Cond.(*ssa.BinOp)
 							if !ok {
 								return cur, nil
+							}
+							// a further comparison of the byte this walk is about with a constant
+							if bo.Op == token.EQL || bo.Op == token.NEQ {
+								var k *ssa.Const
+								if bo.X == kv {
+									k, _ = bo.Y.(*ssa.Const)
+								} else if bo.Y == kv {
+									k, _ = bo.X.(*ssa.Const)
+								}
+								if k != nil && k.Value != nil && k.Value.Kind() == constant.Int {
+									truth := (k.Int64() == kch) == (bo.Op == token.EQL)
+									next := cur.Succs[1]
+									if truth {
+										next = cur.Succs[0]
+									}
+									prev, cur = cur, next
+									continue
+								}
 							}
 							_, lenY := isLenCall(bo.Y)
 							_, lenX := isLenCall(bo.X)
@@ -2065,8 +2206,8 @@ var ruleLocCRAtEnd = &Rule{
 					}
 					return cur, nil
 				}
-				nBlock, nRet := walk(bn, bn.Succs[0])
-				rBlock, rRet := walk(br, br.Succs[0])
+				nBlock, nRet := walk(bn, bn.Succs[en], vn, '\n')
+				rBlock, rRet := walk(br, br.Succs[er], vr, '\r')
 				verdict, note := VIOLATION, "a '\\r' that is the last byte of the text does not reach the line-end branch: the last, empty line of a CR-terminated document does not exist for the server"
 				switch {
 				case nRet != nil && rRet != nil && *nRet == *rRet:
